@@ -319,6 +319,12 @@ def sdo_kw(rng, ver, ty, full=False, markings=False):
     elif rng.random() < 0.5:
         kw["created"] = rng.choice(TS[:2])
         kw["modified"] = rng.choice(TS[2:])
+    if "created" in kw and rng.random() < 0.35:
+        # timestamps given as datetime objects: naive, UTC, fixed offset, a real zone in the repeated
+        # hour (fold), the library's own STIXdatetime; `modified` later than any of them
+        kw["created"] = rng.choice(DT_CREATED)
+        kw["modified"] = rng.choice(["2022-03-04T05:06:07.000Z", DT((2022, 3, 4, 5, 6, 7, 0), "UTC"),
+                                     DT((2022, 3, 4, 5, 6, 7, 0), "Europe/Berlin", 0, True, "millisecond")])
     if ty == "identity":
         kw["name"] = rng.choice(["ACME", "J. Doe"])
         kw["identity_class"] = "organization"
@@ -374,6 +380,12 @@ VALUE_POOL = [
     ("x_keys", {'k"q': 1, "k\\b": [2], "k\x7f": {"z": 3}, "k\U0001F600": "v", "K-UP_down--x": [], "": "empty key"}),
     ("x_text_shapes", ["", "a" * 255, "b" * 256, "\x7f", "\U0001F600", 'q"uote', "back\\slash", "2016-01-01T00:00:00.1234567Z"]),
 ]
+
+
+DT_CREATED = [DT((2021, 11, 7, 1, 30, 0, 0)), DT((2021, 11, 7, 1, 30, 0, 0), "UTC"), DT((2021, 11, 7, 1, 30, 0, 0), "fixed:-300"),
+              DT((2021, 11, 7, 1, 30, 0, 0), "America/New_York", 1), DT((2021, 11, 7, 1, 30, 0, 0), "America/New_York", 0),
+              DT((2021, 10, 31, 2, 30, 0, 250000), "Europe/Berlin", 1, True, "millisecond"),
+              DT((2021, 11, 7, 1, 30, 0, 0), "America/New_York", 1, True, "second")]
 
 
 def custom_props_tree(rng):
@@ -844,7 +856,7 @@ def sc_sizes(rng):
     ver = pick_ver(rng)
     n = rng.choice(SIZES)
     depth = rng.choice(SIZES)
-    deep = depth > 30
+    deep = depth > 30 or n > 101
     kw = sdo_kw(rng, ver, "identity", full=True)
     kw["labels"] = ["l%d" % i for i in range(n)]
     kw["external_references"] = [{"source_name": "s%d" % i, "external_id": str(i)} for i in range(min(n, 70))]
@@ -1077,7 +1089,7 @@ def sc_custom_types(rng):
 
 SNAPSHOT_ONLY = [(sc_api, 3), (sc_stores, 2)]
 MODELLED.append((sc_custom_types, 3))
-MODELLED.append((sc_sizes, 2))
+MODELLED.append((sc_sizes, 1))
 
 
 KIND_OF = {sc_sizes: "sizes", sc_custom_types: "custom-types", sc_api_markings: "api-markings", sc_extensions: "extensions", sc_observed: "observed-data", sc_sdo: "sdo", sc_markings: "markings",
